@@ -21,6 +21,9 @@ checks={
  "C09": dict(category="exploration", design="§3 C09", technique="exhaustive enumeration of hostile peer-supplied names (component lists up to length 2/3 over a traversal alphabet) x modes x protocols x receiving roles as full transfers by the real sender fed doctored records; before/after snapshot of everything outside the destination",
    text="Every component list over {a, .., ., empty, /, /abs, a/b, a\\b, ../x, ../victim.txt, victim.txt, 300-byte name} is sent as JSON path list, as plain name and as archive entry header by the real sendFiles (doctored records) to the real receiving role on either side, with and without -y and directory mode, protocols 1-4; nothing outside the destination may be created, modified or removed.",
    note="Upload sender = body of TrzszFilter.uploadFiles re-assembled from product functions. Backslash is not a separator on Linux (the fix also rejects os.PathSeparator). Symlinks inside the destination are not in the alphabet."),
+ "C02": dict(category="fault_enumeration", design="§3 C02", technique="exhaustive single-fault enumeration (7 byte-level fault kinds x every control-byte offset and a fixed family of payload offsets x both directions), fault pairs in the thorough tier, each a full transfer on the real code in virtual time",
+   text="For each configuration the unfaulted transcript is recorded, then every (direction, offset, kind) fault is injected into the connection of a fresh run; whenever a side reports names as saved, those names must be at the destination with exactly the source's content. Thorough adds pairs of faults on every pair of protocol lines and more configurations (protocol 1, archive, resume, escape-all binary, relay, Windows framing).",
+   note="Payload interiors are covered at the first/last 24 bytes and every 61st byte of each DATA payload (a fixed family, stated in the evidence), control bytes at every offset. Hangs and crashes provoked by faults are counted here and decided by C11/C12."),
 }
 not_yet="check not built yet in this session (framework under construction; see DESIGN.md §7 order)"
 m={"version":1,
